@@ -114,6 +114,10 @@ pub fn run(seed: u64, count: usize, _thorough: bool, out: &mut Out) {
         for level in [2usize, 1, 0] {
             let (obs, pdb) = read_obs(text.as_bytes(), 0, level);
             out.case("C01", call("read", vec![z(0), z(level as i128), s(&text)]), obs, "corr:reader-model", n_atoms > 1);
+            if level == 2 {
+                // a well-formed file is accepted at the loose level
+                out.case("C01", call("accept", vec![z(i as i128)]), y(if pdb.is_some() { "accepted" } else { "rejected" }), "prop:accepted", true);
+            }
             if let Some(p) = pdb {
                 // the property: the structure and metadata are what the records state
                 let mut v = meta(&p);
